@@ -1,0 +1,46 @@
+//go:build verif
+
+// Verification hook (add-only, build tag verif): a look at the memory AROUND the buffers of an extended key, for the
+// allocation reading of "after Zero the buffers that held the key material ... contain only zero bytes" (C15).
+package hdkeychain
+
+import "unsafe"
+
+// VerifAround holds copies of the bytes next to one field slice: Before = up to n bytes directly in front of the
+// slice's first byte, After = the spare capacity behind it (s[len(s):cap(s)]).
+type VerifAround struct {
+	Before, After []byte
+}
+
+// verifPage bounds the backward read: the bytes in front of a slice are read only as far as they lie in the same
+// 4 KiB page as the slice's first byte.  That page is mapped (the slice lives in it), so the read cannot fault,
+// whether or not the slice begins at the start of its allocation; what it returns may belong to another object of
+// the same span when it does.
+const verifPage = 4096
+
+func verifAround(s []byte, n int) VerifAround {
+	var a VerifAround
+	if cap(s) == 0 {
+		return a
+	}
+	full := s[:cap(s)]
+	a.After = append([]byte{}, full[len(s):]...)
+	p := unsafe.Pointer(unsafe.SliceData(full))
+	if room := int(uintptr(p) % verifPage); room < n {
+		n = room
+	}
+	if n > 0 {
+		a.Before = append([]byte{}, unsafe.Slice((*byte)(unsafe.Add(p, -n)), n)...)
+	}
+	return a
+}
+
+// VerifSurroundings returns the surroundings of the key, pubKey, chainCode and parentFP slices (n bytes in front at
+// most).  Call it with the slices as they are BEFORE Zero nils them, or pass slices obtained from VerifBuffers to
+// VerifAroundOf afterwards.
+func (k *ExtendedKey) VerifSurroundings(n int) (key, pubKey, chainCode, parentFP VerifAround) {
+	return verifAround(k.key, n), verifAround(k.pubKey, n), verifAround(k.chainCode, n), verifAround(k.parentFP, n)
+}
+
+// VerifAroundOf is verifAround for a slice the caller already holds (e.g. from VerifBuffers before Zero).
+func VerifAroundOf(s []byte, n int) VerifAround { return verifAround(s, n) }
